@@ -109,6 +109,19 @@ func checkC09(c *CaseC09, fl *Fails) {
 			fl.Add("point-overlap", "ids %s and %s of the same point do not overlap (%v, %v)", coarse, fine, ov, err)
 		}
 	}
+	// mixed pair: one voxel of the point finer horizontally, the other finer vertically - still the same point
+	if mh, mv := at(c.HCoarse, c.VFine), at(c.HFine, c.VCoarse); mh != "" && mv != "" {
+		for _, pr := range [][2]string{{mh, mv}, {mv, mh}} {
+			ov, err := detector.CheckExtendedSpatialIdsOverlap(pr[0], pr[1])
+			if err != nil || !ov {
+				fl.Add("point-overlap-mixed", "ids %s and %s of the same point (%v,%v,%v) do not overlap (%v, %v)", pr[0], pr[1], p.Lon(), p.Lat(), p.Alt(), ov, err)
+			}
+			ova, err := detector.CheckExtendedSpatialIdsArrayOverlap([]string{pr[0], fine}, []string{pr[1]})
+			if err != nil || !ova {
+				fl.Add("point-overlap-mixed", "array form: ids [%s %s] and [%s] of the same point do not overlap (%v, %v)", pr[0], fine, pr[1], ova, err)
+			}
+		}
+	}
 	// zoom in, then out
 	id := c.Box.Ext()
 	in, err := integrate.ChangeExtendedSpatialIdsZoom([]string{id}, c.Box.H+c.DH, c.Box.V+c.DV)
@@ -166,7 +179,7 @@ func sweepC09(tier string, emit func(*CaseC09)) {
 func init() {
 	register(PropT[CaseC09]{
 		ID:          "C09",
-		Rule:        "rapid: a valid point (C01 generator, sub-normal altitudes replaced) x ordered zoom pairs (fine>=coarse) per axis, and a valid box x zoom-in differences (<=2 horizontal, <=3 vertical). Relations checked between library calls only: id(point)@coarse == zoom-out of id(point)@fine (both axes, and each axis alone), nested ids overlap in both argument orders, zoom-in then zoom-out returns the ID, merging all descendants returns the ID, descendants overlap their ancestor. Sweep: all ordered horizontal zoom pairs x 6 fixed points; all ordered vertical zoom pairs x 5 negative/positive altitudes. Non-trivial: alt<0 or f<0, or zoom difference>=2 on both axes.",
+		Rule:        "rapid: a valid point (C01 generator, sub-normal altitudes replaced) x ordered zoom pairs (fine>=coarse) per axis, and a valid box x zoom-in differences (<=2 horizontal, <=3 vertical). Relations checked between library calls only: id(point)@coarse == zoom-out of id(point)@fine (both axes, and each axis alone), nested ids overlap in both argument orders (also the mixed pair: one id finer horizontally, the other finer vertically), zoom-in then zoom-out returns the ID, merging all descendants returns the ID, descendants overlap their ancestor. Sweep: all ordered horizontal zoom pairs x 6 fixed points; all ordered vertical zoom pairs x 5 negative/positive altitudes. Non-trivial: alt<0 or f<0, or zoom difference>=2 on both axes.",
 		Assumptions: []string{"no external reference: the relations are exact because the library scales one float fraction per axis by an exact power of two", "altitudes with 0<|alt|<1e-250 are excluded by construction (float underflow of alt/2^(25-v), see C01 band)"},
 		Gen:         genC09, Check: checkC09, Classify: classifyC09, Sweep: sweepC09,
 		SweepScopes: func(tier string) []string {
